@@ -13,6 +13,7 @@ ID = 'C09'
 LEAN_MODULES = ['Pfst.Props.C09']
 LEAN_MODULES += ['Pfst.Props.C09c']
 LEAN_DEPS = ['Pfst.Grammar', 'Pfst.GrammarLemmas', 'Pfst.Prec']
+LEAN_DEPS += ['Pfst.Parse', 'Pfst.ParseLemmas', 'Pfst.ParseSound']
 THEOREMS = ['Pfst.C09.pr_derives', 'Pfst.C09.pr_minimal_derives', 'Pfst.C09.replace_groups', 'Pfst.C09.table_sound',
             'Pfst.C09.not_derives_sub_right']
 THEOREMS += ['Pfst.C09c.parse_derives', 'Pfst.C09c.parse_iff', 'Pfst.C09c.derives_unique', 'Pfst.C09c.parse_pr',
@@ -24,11 +25,20 @@ RULE = ('(i) spec grammar vs CPython: abstract syntax trees over every construct
         'precedence_require_parens on real (parent, child) edges vs the table; (iii) real replace() for every mapped '
         '(parent kind, field) x child kind x layout x code form, judged by ast.parse of the resulting source. '
         'distinct = distinct (slot, child kind, layout, form) or distinct tree; non-trivial = parentheses needed or child not atomic')
+RULE += ('; (iv) C09c: trees of the operator/trailer fragment printed by the Lean printer under minimal and over-parenthesising '
+         'policies and parsed back by the Lean parser (also in front of continuations); raw token lists (all lists up to length 3/4 '
+         'over a 24-token alphabet, random, operand/operator walks, mutated prints) read by the Lean parser in each ladder slot and by '
+         'CPython in a source context whose nonterminal is that slot: same acceptance, same tree')
 TRUSTED = ['spec grammar transcription (Pfst/Grammar.lean: Kind.cls/slot/render) and pfst vocabulary bridge (Pfst/Prec.lean); '
            'unambiguity of the grammar is validated against CPython per run, not proved',
            'modelled: precedence_require_parens_by_type (extracted whole), flag computation of precedence_require_parens; '
            'not modelled: _is_atom/_is_enclosed_or_line line-structure logic of need_pars (reached by the replace sweep only)',
            'FormattedValue/Interpolation value slots and Store-context targets are outside the mapped domain']
+TRUSTED += ['C09c: on the fragment inFrag (names, ints, groups, all binary/unary operators, not, and/or, comparison chains, '
+            'conditional, lambda:, await, attribute, subscript by an expression, call with positional expressions) unambiguity is '
+            'now PROVED (Pfst.C09c.derives_unique / parse_iff: an executable parser decides Derives); outside it (named, yield, '
+            'starred, tuple, keywords, displays, comprehensions, statement/pattern kinds) it remains validated against CPython only; '
+            'uniqueness is within the fragment (Derives.leaf accepts any class for a leaf, and exprStmt renders like its child)']
 ASSUMPTIONS = ['CPython ast.parse is the judge of grouping']
 LEVEL_TEXT = ('Lean 4 theorems: for every expression/pattern tree and every parenthesisation policy covering the grammar\'s need, '
               'the printed phrase derives exactly that tree (induction over nested trees); the pfst decision table, regenerated '
